@@ -7,6 +7,7 @@ from harness.common import *  # noqa: F401,F403
 from symx import models_lark as ML
 from dissect.cobaltstrike import c2profile
 from dissect.cobaltstrike.c2profile import C2Profile, c2profile_parser
+import dissect.cobaltstrike.c2profile as C2P
 
 INFO = dict(
     files=["dissect/cobaltstrike/c2profile.lark", "dissect/cobaltstrike/c2profile.py"],
@@ -408,6 +409,49 @@ def h_layout(which, n):
     return body
 
 
+def h_from_text(n):
+    """from_text hands every string literal to the parser UNCHANGED: the parser (third-party, not encoded) is replaced by a recorder and the
+    text it receives must equal the source for every content of a string literal (n symbolic code points, any value: line
+    boundaries, control characters, non-ASCII) — whatever from_text does to the text in front of the parser is interpreted"""
+    def body(ctx):
+        lit = sym_str("lit", n)
+        for c in lit.cells:  # a literal body: no quote, no backslash (so the statement is a valid one for every content)
+            if not is_native():
+                ctx.assume(mkbool(z3.And(c != 34, c != 92)))
+            elif c in (34, 92):
+                raise PathAbort()
+        head = SymStr([ord(c) for c in 'set useragent "'] + lit.cells + [ord(c) for c in '";'])
+        src = SymStr(head.cells + [ord(c) for c in '\nhttp-get {\n set uri "/a"; }\n'])
+        seen = []
+        import lark as _lark
+
+        def rec(parser, text, *a, **k):
+            seen.append(text)
+            return _lark.Tree("start", [])
+
+        if is_native():
+            real = c2profile_parser.parse
+            saved = C2P.c2profile_parser
+            C2P.c2profile_parser = type("P", (), {"parse": staticmethod(lambda text, *a, **k: rec(None, text))})()
+        else:
+            I.stubs[_lark.Lark.parse] = rec
+        try:
+            kind, r = outcome(C2Profile.from_text, V.unwrap(src) if not is_native() else V.to_native(src))
+        finally:
+            if is_native():
+                C2P.c2profile_parser = saved
+            else:
+                I.stubs.pop(_lark.Lark.parse, None)
+        ctx.prove(kind == "ok", "from_text with a stubbed parser returns (%r)" % (r,))
+        ctx.prove(len(seen) == 1, "the parser is called exactly once")
+        if len(seen) == 1:
+            got = as_str(seen[0])
+            # (whitespace outside literals is not an observable of the property: only the statement with the literal is compared)
+            ctx.prove(len(got.cells) >= len(head.cells) and deep_eq(SymStr(got.cells[:len(head.cells)]), head),
+                      "the statement and its string literal reach the parser unchanged")
+    return body
+
+
 def h_string_accepts(n):
     """every literal whose body is valid by the definition (any characters, line feeds included; the closing quote is the first
     quote preceded by an even number of backslashes) is ONE token of the loaded grammar's STRING terminal"""
@@ -429,6 +473,7 @@ def instances(tier):
     q = tier == "quick"
     out = [Instance("grammar table: every production regenerated with its own keywords", h_table(), dict(kind="table", productions=len(RULES)))]
     for n in ((0, 1, 2, 3) if q else (0, 1, 2, 3, 4)):
+        out.append(Instance("from_text passes the source to the parser unchanged, literal of %d symbolic characters" % n, h_from_text(n), dict(kind="from_text", chars=n)))
         out.append(Instance("STRING terminal accepts every valid literal body of %d characters" % n, h_string_accepts(n), dict(kind="string_terminal", chars=n), split=8))
     for which in (SKELETONS_Q if q else SKELETONS_T):
         for n in ((1, 2, 3) if q else (1, 2, 3, 4)):
